@@ -46,6 +46,11 @@ class InlineReturn(ast.Assign):
     _fields = ("targets", "value", "type_comment")
 
 
+# ast.unparse / NodeVisitor dispatch on the class NAME: the two classes must be visited as the statements they extend
+InlineBlock.__name__ = "If"
+InlineReturn.__name__ = "Assign"
+
+
 def _stmts(node) -> int:
     return sum(1 for x in ast.walk(node) if isinstance(x, ast.stmt))
 
@@ -354,6 +359,20 @@ class _Inliner:
             if getattr(st, "value", None) is None:
                 return None
             holder, field = st, root_field
+        elif isinstance(st, ast.If) and not isinstance(st, InlineBlock) and isinstance(st.test, ast.BoolOp) and isinstance(st.test.op, ast.And) and not st.orelse:
+            # `if a and helper(..) [and c]: body`  ->  `if a: <inlined>; if <result> [and c]: body`
+            for i in range(1, len(st.test.values)):
+                rest = st.test.values[i:]
+                inner_test = rest[0] if len(rest) == 1 else ast.BoolOp(op=ast.And(), values=rest)
+                inner = ast.If(test=inner_test, body=st.body, orelse=[], lineno=st.lineno, col_offset=st.col_offset)
+                rep = self._try_stmt(inner, owner_cls)
+                if rep is not None:
+                    outer_vals = st.test.values[:i]
+                    st.test = outer_vals[0] if len(outer_vals) == 1 else ast.BoolOp(op=ast.And(), values=outer_vals)
+                    st.body = rep
+                    ast.fix_missing_locations(st)
+                    return [st]
+            holder, field = st, "test"
         elif isinstance(st, ast.If):
             holder, field = st, "test"
             if isinstance(st, InlineBlock):
